@@ -2,15 +2,32 @@ package pongo2
 
 type tagCycleValue struct {
 	node  *tagCycleNode
+	state *tagCycleState
 	value *Value
 }
 
 type tagCycleNode struct {
 	position *Token
 	args     []IEvaluator
-	idx      int
 	asName   string
 	silent   bool
+}
+
+// tagCycleState is the position of a cycle within one execution.
+type tagCycleState struct {
+	idx int
+}
+
+func (node *tagCycleNode) state(ctx *ExecutionContext) *tagCycleState {
+	if ctx.nodeState == nil {
+		ctx.nodeState = make(map[any]any)
+	}
+	if s, ok := ctx.nodeState[node].(*tagCycleState); ok {
+		return s
+	}
+	s := &tagCycleState{}
+	ctx.nodeState[node] = s
+	return s
 }
 
 func (cv *tagCycleValue) String() string {
@@ -18,8 +35,9 @@ func (cv *tagCycleValue) String() string {
 }
 
 func (node *tagCycleNode) Execute(ctx *ExecutionContext, writer TemplateWriter) *Error {
-	item := node.args[node.idx%len(node.args)]
-	node.idx++
+	state := node.state(ctx)
+	item := node.args[state.idx%len(node.args)]
+	state.idx++
 
 	val, err := item.Evaluate(ctx)
 	if err != nil {
@@ -31,8 +49,8 @@ func (node *tagCycleNode) Execute(ctx *ExecutionContext, writer TemplateWriter) 
 		// {% cycle cycleitem %}
 
 		// Update the cycle value with next value
-		item := t.node.args[t.node.idx%len(t.node.args)]
-		t.node.idx++
+		item := t.node.args[t.state.idx%len(t.node.args)]
+		t.state.idx++
 
 		val, err := item.Evaluate(ctx)
 		if err != nil {
@@ -49,6 +67,7 @@ func (node *tagCycleNode) Execute(ctx *ExecutionContext, writer TemplateWriter) 
 
 		cycleValue := &tagCycleValue{
 			node:  node,
+			state: state,
 			value: val,
 		}
 
